@@ -68,6 +68,10 @@ theorem clean_call1 {f e : Expr} (hg : isGlue (.call f [e] []) = true) (h : Clea
 theorem isGlue_tupleCall (e : Expr) : isGlue (.call (.name "tuple") [e] []) = true := by simp [isGlue, isGlue']
 theorem isGlue_listCall (e : Expr) : isGlue (.call (.name "list") [e] []) = true := by simp [isGlue, isGlue']
 
+theorem not_clean_forComp {elt itr : Expr} {x : String} (hx : isTemp x) (h : Clean (.listComp elt [.mk (.name x) itr [] false])) : False := by
+  cases h with
+  | other _ h => simp [isGlue, isGlue', isChain, hx] at h
+
 theorem clean_chain {f a : Expr} (hc : isChain (.call f [a] []) = true) (h : Clean (.call f [a] [])) : Clean f ∧ Clean a := by
   cases h with
   | call _ _ _ hf h => exact ⟨hf, h a (by simp)⟩
@@ -139,6 +143,7 @@ mutual
         have ih1 := frame W h1 (clean_boolOp2 hc).1
         have ih2 := frame W h2 (clean_boolOp2 hc).2
         exact ⟨ih2.1.trans ih1.1, fun t2 => .orF a b (ih1.2 t2) hb (ih2.2 t2)⟩
+    | _, _, _, _, _, _, .forComp elt x itr hx _ _ _, hc => (not_clean_forComp hx hc).elim
     | _, _, _, _, _, _, .runner u t, _ => ⟨rfl, fun t2 => .runner u t2⟩
     | _, _, _, _, _, _, .chain f a hch h1 h2, hc => by
         have ih1 := frame W h1 (clean_chain hch hc).1
